@@ -92,6 +92,15 @@ Proof. apply scan_rows. Qed.
 Lemma return_distinct_refuted_l : exists rows, return_distinct_query rows <> dedup_from [] rows.
 Proof. exists [[VInt 1]; [VInt 1]]. vm_compute. discriminate. Qed.
 
+(** * the proposed repairs of C11-K2 / C11-K3 meet the specification *)
+Lemma window_fix_l l ord s n rows : window_query_fix l ord s n rows = window_spec ord s n rows.
+Proof. apply cypher_window_l. Qed.
+Lemma count_fix_l l s n rows : Forall (fun r => nonnull_at 0 r = true) rows ->
+  count_query_fix l s n rows = count_spec s n rows.
+Proof. apply cypher_count_l. Qed.
+Lemma return_distinct_fix_l rows : return_distinct_query_fix rows = dedup_from [] rows.
+Proof. apply with_distinct_l. Qed.
+
 (** * refutation witnesses for the operators *)
 (** the Filter before df57ccb (C11-K1) *)
 Lemma filter_pre_refuted_l : exists fa p cs, Forall chunk_wf cs /\
